@@ -5,9 +5,11 @@ from vf.runner import H, Spec
 def cubes(tier):
     out = stack_cubes("C11")(tier)
     # corrupt sources under verify
-    ls = [[[0, 1], [0]], [[0], [1]]]
-    dsts = ("local", "base", "remote") if tier == "thorough" else ("local", "base")
-    out += [dict(nfiles=2, listing=l, dst=d, prop="C11", verify=True, corrupt=True) for l in ls for d in dsts]
+    if tier == "thorough":
+        out += [dict(nfiles=2, listing=l, dst=d, prop="C11", verify=True, corrupt=True, _w=2) for l in ([[0, 1], [0]], [[0], [1]])
+                for d in ("local", "base", "remote")]
+    else:
+        out += [dict(nfiles=2, listing=[[0, 1], [0]], dst=d, prop="C11", verify=True, corrupt=True, _w=2) for d in ("local", "base")]
     return out
 
 
